@@ -239,7 +239,7 @@ class World:
         fs.discard("\\Recent")
         if "unseen" in fs:
             if "\\Seen" in fs:
-                self.viol(["C04"], "seen-and-unseen-together", f"{where}: {sorted(fs)}")
+                self.viol(["C04"], "seen-and-unseen-together", f"{where}: {sorted(fs)}", flags_used=sorted(self.flags_used))
             fs.discard("unseen")
             self.known_hits["C04-unseen-keyword-exposed"] += 1
         if "Seen" in fs and "\\Seen" in fs:
@@ -537,7 +537,26 @@ class World:
             self.stats["appends"] += 1
             self._mark_dirty(b, [mm], ss)
             return mm
+        if b is not None and not b.noselect and not any(":" in f for f in (flags or [])):
+            self.viol(["C05", "C06"], "append-refused", f"APPEND {name} flags={flags} date={date} -> {r.brief()}")
+        self.stats["append_refused"] += 1
+        if b is not None and b.noselect:
+            self._placeholder_must_be_empty(b, f"APPEND {name}")
         return None
+
+    def _placeholder_must_be_empty(self, b, what):
+        """A refused command with a \\Noselect placeholder as destination must
+        not have left message files in its folder."""
+        import os
+
+        path = self.rig.maildir / b.name
+        try:
+            left = sorted(int(f) for f in os.listdir(path) if f.isdigit() and os.path.isfile(path / f))
+        except OSError:
+            return
+        self.stats["placeholder_emptiness_checks"] += 1
+        if left:
+            self.viol(["C05"], "refused-command-left-messages-in-placeholder", f"{what}: folder {b.name} now holds message files {left}")
 
     def _fresh_uid(self, b, uid, where):
         mx = max([u for (n, v, u) in self.ledger if n == b.name and v == b.vv] + [m.uid or 0 for m in b.msgs] + [0])
@@ -549,7 +568,7 @@ class World:
     async def learn_uids(self, b):
         """Messages delivered externally have no UID in the model until a
         client has seen them: look (observer) before addressing anything."""
-        if any(m.uid is None for m in b.msgs):
+        if any(m.uid is None for m in b.msgs) and not getattr(self, "no_probe", False):
             await self.observe(names=[b.name])
             self.stats["learn_uid_observations"] += 1
 
@@ -597,6 +616,7 @@ class World:
         verb = {"add": "+FLAGS", "remove": "-FLAGS", "replace": "FLAGS"}[action] + (".SILENT" if silent else "")
         text = f"{'UID ' if uid_mode else ''}STORE {self.fmt_set(spec)} {verb} ({' '.join(flags)})"
         recent0 = self._disk_recent(b)
+        self.flags_used.update(flags)
         r = await self._cmd(ss, text, kind=None if uid_mode else "STORE")
         # \\Recent can never be set by a client: no message that was in the
         # folder before the STORE may have gained it (the MH `Recent` sequence
@@ -604,9 +624,10 @@ class World:
         recent1 = self._disk_recent(b)
         if recent0 is not None and recent1 is not None and len(recent1) >= len(recent0):
             self.stats["store_recent_compares"] += len(recent0)
-            gained = [i + 1 for i, (x, y) in enumerate(zip(recent0, recent1)) if y and not x]
+            # (a delivery the server has not noticed yet legitimately becomes \\Recent whenever it is noticed)
+            gained = [i + 1 for i, (x, y) in enumerate(zip(recent0, recent1)) if y and not x and i < len(b.msgs) and b.msgs[i].uid is not None]
             if gained and "\\Recent" not in [canon_flag(f) for f in flags]:
-                self.viol(["C04"], "store-set-recent", f"{text}: messages at positions {gained} were not \\Recent before the command and are after it (Recent before {recent0}, after {recent1})")
+                self.viol(["C04"], "store-set-recent", f"{text}: messages at positions {gained} were not \\Recent before the command and are after it (Recent before {recent0}, after {recent1})", flags_used=sorted(flags), store_flags=sorted(flags))
         cf = [canon_flag(f) for f in flags]
         self.flags_used.update(flags)
         if any(f == "\\Recent" for f in cf):
@@ -619,6 +640,11 @@ class World:
         if not r.ok:
             if ss.readonly:
                 self.stats["examine_store_refused"] += 1
+                return r
+            if any(":" in f for f in flags) and r.status in ("NO", "BAD"):
+                # a keyword containing ':' cannot be an MH sequence name: refusing
+                # it (without effect) is the only sound answer of an MH-backed store
+                self.stats["colon_keyword_refused"] += 1
                 return r
             self.viol(["C04", "C06"], "store-refused", f"{text} -> {r.brief()}")
         if ss.readonly:
@@ -829,6 +855,8 @@ class World:
             if d is not None and not d.noselect and not (move and ss.readonly) and targets:
                 self.viol(["C05", "C06"], "copy-refused", f"{text} -> {r.brief()}")
             self.stats["copy_refused"] += 1
+            if d is not None and d.noselect:
+                self._placeholder_must_be_empty(d, text)
             return r
         if d is None or d.noselect:
             self.viol(["C05", "C17"], "copy-to-nonexistent-accepted", text)
